@@ -2,6 +2,7 @@ package leaseopts
 
 import (
 	"fmt"
+	"math"
 	"net"
 	"time"
 
@@ -56,6 +57,9 @@ func ParseConfig(conf *pb.ServerConfig) (*LeaseOptions, *net.IPNet, error) {
 	} else {
 		lopts.NTP = ntp
 	}
+	if err := representable(lopts); err != nil {
+		return nil, nil, err
+	}
 	return lopts, ipnet, nil
 }
 
@@ -89,8 +93,33 @@ func SetClientOverrides(original *LeaseOptions, client *pb.ClientConfig) error {
 	if hn := client.GetHostname(); hn != "" {
 		opts.Hostname = hn
 	}
+	if err := representable(&opts); err != nil {
+		return err
+	}
 	// all done, update original reference.
 	*original = opts
+	return nil
+}
+
+// representable verifies that the options fit into the DHCP options they are sent in:
+// an option carries at most 255 bytes and the lease time is an uint32 (seconds).
+func representable(o *LeaseOptions) error {
+	const maxOptLen = 255
+	if len(o.Domain) > maxOptLen {
+		return fmt.Errorf("domain name is longer than %d bytes", maxOptLen)
+	}
+	if len(o.Hostname) > maxOptLen {
+		return fmt.Errorf("hostname is longer than %d bytes", maxOptLen)
+	}
+	if len(o.DNS)*net.IPv4len > maxOptLen {
+		return fmt.Errorf("too many dns servers: %d", len(o.DNS))
+	}
+	if len(o.NTP)*net.IPv4len > maxOptLen {
+		return fmt.Errorf("too many ntp servers: %d", len(o.NTP))
+	}
+	if o.LeaseDuration/time.Second > math.MaxUint32 {
+		return fmt.Errorf("lease duration %s does not fit into a dhcp option", o.LeaseDuration)
+	}
 	return nil
 }
 
